@@ -438,6 +438,7 @@ func runC13(cfg Config) {
 	// child names sorted when packing from disk: the order of the record stream LocalFS delivers (lfsread.go)
 	lfsReadCases(cfg, rep, m, rand.New(rand.NewSource(cfg.Seed^0x1f13)), cfg.N(12, 300))
 	c13CLI(cfg, rep, rng, monitor)
+	c13CLIFaults(cfg, rep, rand.New(rand.NewSource(cfg.Seed^0x6661756c74)), monitor) // cliarch.go: desync tar on damaged input, with and without -i
 	rep.Write(cfg.Out)
 }
 
